@@ -124,7 +124,7 @@ var (
 	fieldPool  = []string{"f", "g", "usage", "load_1", "Cpu.Idle", "x9", "user", "idle.", "HeapInuse", "p99"}
 	tagPool    = []string{"host", "ip", "zone", "dc.name", "Node", "disk_1", "k8s.pod"}
 	metricPool = []string{"cpu", "system.cpu.load", "m1", "lindb.runtime.mem", "Net_IO", "a.b.c.d"}
-	nsPool     = []string{"ns", "prod.ns", "default-ns1", "lindb"}
+	nsPool     = []string{"ns", "prod.ns", "default_ns1", "lindb"}
 	aliasPool  = []string{"a", "total", "avg_1", "X", "rate.per.sec"}
 	// non reserved words (rule nonReservedWords) that cannot be confused with a keyword of the
 	// query grammar in any position where the generator uses them.
